@@ -77,34 +77,33 @@ theorem send_detached (s : State) (a : Addr) (p : Bytes) (h : s.anonymized p = t
   simp [send, h, hd]
 
 theorem send_tunnel (s : State) (a : Addr) (p : Bytes) (c : Circuit) (h : s.anonymized p = true)
-    (ha : s.attached = true) (hc : (s.comm.find s.hops).head? = some c) (hr : c.state = .ready) :
-    send s a p = ({ s with queue := [] }, dataEv c (a, p) :: s.queue.map (dataEv c)) := by
-  simp [send, h, ha, hc, hr]
+    (ha : s.attached = true) (hc : s.comm.pick s.hops = some c) :
+    send s a p = sendOver s c a p := by
+  simp [send, h, ha, hc]
 
-theorem send_queue_notready (s : State) (a : Addr) (p : Bytes) (c : Circuit) (h : s.anonymized p = true)
-    (ha : s.attached = true) (hc : (s.comm.find s.hops).head? = some c) (hr : c.state ≠ .ready) :
+theorem send_queue_notready (s : State) (a : Addr) (p : Bytes) (h : s.anonymized p = true)
+    (ha : s.attached = true) (hc : s.comm.pick s.hops = none) (hne : (s.comm.find s.hops).isEmpty = false) :
     send s a p = ({ s with queue := (dequeAppend s.cap s.queue (a, p)).1 },
                   (dequeAppend s.cap s.queue (a, p)).2.map (fun x => .drop true x.1 x.2)) := by
-  simp [send, h, ha, hc, hr]
+  simp [send, h, ha, hc, hne]
 
 theorem send_queue_nocircuit (s : State) (a : Addr) (p : Bytes) (h : s.anonymized p = true)
-    (ha : s.attached = true) (hc : (s.comm.find s.hops).head? = none) :
+    (ha : s.attached = true) (hc : s.comm.pick s.hops = none) (he : (s.comm.find s.hops).isEmpty = true) :
     send s a p = ({ s with comm := (s.comm.create (sendCreateHops s.hops) sendCreateCtype).1,
                            queue := (dequeAppend s.cap s.queue (a, p)).1 },
                   .create (sendCreateHops s.hops) sendCreateFlags (s.comm.create (sendCreateHops s.hops) sendCreateCtype).2
                     :: (dequeAppend s.cap s.queue (a, p)).2.map (fun x => .drop true x.1 x.2)) := by
-  simp [send, h, ha, hc]
+  simp [send, h, ha, hc, he]
 
 /-- the five ways a call of `send` can go, with the exact result of each -/
 theorem send_cases (s : State) (a : Addr) (p : Bytes) :
     (s.anonymized p = false ∧ send s a p = (s, [.raw a p]))
     ∨ (s.anonymized p = true ∧ s.attached = false ∧ send s a p = (s, [.drop false a p]))
-    ∨ (s.anonymized p = true ∧ s.attached = true ∧ ∃ c, (s.comm.find s.hops).head? = some c ∧ c.state = .ready ∧
-        send s a p = ({ s with queue := [] }, dataEv c (a, p) :: s.queue.map (dataEv c)))
-    ∨ (s.anonymized p = true ∧ s.attached = true ∧ ∃ c, (s.comm.find s.hops).head? = some c ∧ c.state ≠ .ready ∧
+    ∨ (s.anonymized p = true ∧ s.attached = true ∧ ∃ c, s.comm.pick s.hops = some c ∧ send s a p = sendOver s c a p)
+    ∨ (s.anonymized p = true ∧ s.attached = true ∧ s.comm.pick s.hops = none ∧ (s.comm.find s.hops).isEmpty = false ∧
         send s a p = ({ s with queue := (dequeAppend s.cap s.queue (a, p)).1 },
                       (dequeAppend s.cap s.queue (a, p)).2.map (fun x => .drop true x.1 x.2)))
-    ∨ (s.anonymized p = true ∧ s.attached = true ∧ (s.comm.find s.hops).head? = none ∧
+    ∨ (s.anonymized p = true ∧ s.attached = true ∧ s.comm.pick s.hops = none ∧ (s.comm.find s.hops).isEmpty = true ∧
         send s a p = ({ s with comm := (s.comm.create (sendCreateHops s.hops) sendCreateCtype).1,
                                queue := (dequeAppend s.cap s.queue (a, p)).1 },
                       .create (sendCreateHops s.hops) sendCreateFlags
@@ -112,20 +111,112 @@ theorem send_cases (s : State) (a : Addr) (p : Bytes) :
                         :: (dequeAppend s.cap s.queue (a, p)).2.map (fun x => .drop true x.1 x.2))) := by
   rcases Bool.eq_false_or_eq_true (s.anonymized p) with h | h
   · rcases Bool.eq_false_or_eq_true s.attached with ha | ha
-    · cases hc : (s.comm.find s.hops).head? with
-      | none => exact Or.inr (Or.inr (Or.inr (Or.inr ⟨h, ha, rfl, send_queue_nocircuit s a p h ha hc⟩)))
-      | some c =>
-        by_cases hr : c.state = .ready
-        · exact Or.inr (Or.inr (Or.inl ⟨h, ha, c, rfl, hr, send_tunnel s a p c h ha hc hr⟩))
-        · exact Or.inr (Or.inr (Or.inr (Or.inl ⟨h, ha, c, rfl, hr, send_queue_notready s a p c h ha hc hr⟩)))
+    · cases hc : s.comm.pick s.hops with
+      | none =>
+        rcases Bool.eq_false_or_eq_true (s.comm.find s.hops).isEmpty with he | he
+        · exact Or.inr (Or.inr (Or.inr (Or.inr ⟨h, ha, rfl, he, send_queue_nocircuit s a p h ha hc he⟩)))
+        · exact Or.inr (Or.inr (Or.inr (Or.inl ⟨h, ha, rfl, he, send_queue_notready s a p h ha hc he⟩)))
+      | some c => exact Or.inr (Or.inr (Or.inl ⟨h, ha, c, rfl, send_tunnel s a p c h ha hc⟩))
     · exact Or.inr (Or.inl ⟨h, ha, send_detached s a p h ha⟩)
   · exact Or.inl ⟨h, send_plain s a p h⟩
 
-/-- the first circuit `find_circuits` returns is a registered circuit that satisfies the filter -/
-theorem find_head (cm : Community) (hops : Nat) (c : Circuit) (h : (cm.find hops).head? = some c) :
-    c ∈ cm.circuits ∧ sendFind hops c = true := by
-  have hm : c ∈ cm.find hops := List.mem_of_head? h
-  simpa [Community.find, List.mem_filter] using hm
+/-- the circuit `send` picks is registered, passes the `find_circuits` filter and is READY -/
+theorem pick_spec (cm : Community) (hops : Nat) (c : Circuit) (h : cm.pick hops = some c) :
+    c ∈ cm.circuits ∧ sendFind hops c = true ∧ c.state = .ready := by
+  unfold Community.pick at h
+  have hm : c ∈ cm.find hops := List.mem_of_find?_eq_some h
+  have hp := List.find?_some h
+  simp [Community.find, List.mem_filter] at hm
+  exact ⟨hm.1, hm.2, by simpa using hp⟩
+
+/-- … and when it picks none, no registered circuit both passes the filter and is READY -/
+theorem pick_none (cm : Community) (hops : Nat) (h : cm.pick hops = none) :
+    ∀ c ∈ cm.circuits, sendFind hops c = true → c.state ≠ .ready := by
+  unfold Community.pick at h
+  rw [List.find?_eq_none] at h
+  intro c hc hf hr
+  exact h c (by simp [Community.find, List.mem_filter, hc, hf]) (by simp [hr])
+
+/-! #### the READY branch -/
+
+theorem sendOver_fields (s : State) (c : Circuit) (a : Addr) (p : Bytes) :
+    (sendOver s c a p).1.cap = s.cap ∧ (sendOver s c a p).1.settings = s.settings ∧
+    (sendOver s c a p).1.hops = s.hops ∧ (sendOver s c a p).1.attached = s.attached ∧
+    (sendOver s c a p).1.comm.circuits = s.comm.circuits ∧ (sendOver s c a p).1.comm.nextId = s.comm.nextId := by
+  simp [sendOver]
+
+theorem sendOver_queue_mem (s : State) (c : Circuit) (a : Addr) (p : Bytes) (x : Addr × Bytes)
+    (h : x ∈ (sendOver s c a p).1.queue) : x ∈ s.queue := by
+  simp only [sendOver, List.drop_succ_cons] at h
+  exact List.mem_of_mem_drop h
+
+theorem sendOver_queue_len (s : State) (c : Circuit) (a : Addr) (p : Bytes) :
+    (sendOver s c a p).1.queue.length ≤ s.queue.length := by
+  simp only [sendOver, List.drop_succ_cons, List.length_drop]; omega
+
+theorem sendOver_data (s : State) (c : Circuit) (a : Addr) (p : Bytes) (cid : Nat) (t : Option Addr) (d : Addr)
+    (q : Bytes) (h : Event.data cid t d q ∈ (sendOver s c a p).2) :
+    ∃ y, (y = (a, p) ∨ y ∈ s.queue) ∧ Event.data cid t d q = dataEv c y := by
+  simp only [sendOver, List.mem_append, List.mem_map] at h
+  rcases h with ⟨y, hy, h⟩ | h
+  · have : y ∈ (a, p) :: s.queue := List.mem_of_mem_take hy
+    simp only [List.mem_cons] at this
+    exact ⟨y, this, h.symm⟩
+  · split at h <;> simp at h
+
+theorem sendOver_noraw (s : State) (c : Circuit) (a : Addr) (p : Bytes) (a' : Addr) (p' : Bytes) :
+    Event.raw a' p' ∉ (sendOver s c a p).2 := by
+  intro h
+  simp only [sendOver, List.mem_append, List.mem_map] at h
+  rcases h with ⟨y, _, h⟩ | h
+  · simp [dataEv] at h
+  · split at h <;> simp at h
+
+/-- packets of a list of events that left the queue for good: tunnelled, dropped, or lost to a raising `send_data` -/
+def goneOf (evs : List Event) : List (Addr × Bytes) :=
+  evs.filterMap (fun e => match e with
+    | .data _ _ d q => some (d, q) | .drop _ d q => some (d, q) | .fail d q => some (d, q) | _ => none)
+
+theorem goneOf_datas (c : Circuit) (l : List (Addr × Bytes)) : goneOf (l.map (dataEv c)) = l := by
+  induction l with
+  | nil => rfl
+  | cons y ys ih => simp [goneOf, dataEv] at ih ⊢; exact ih
+
+theorem goneOf_drops (l : List (Addr × Bytes)) (b : Bool) :
+    goneOf (l.map (fun x => Event.drop b x.1 x.2)) = l := by
+  induction l with
+  | nil => rfl
+  | cons y ys ih => simp [goneOf] at ih ⊢; exact ih
+
+theorem goneOf_append (xs ys : List Event) : goneOf (xs ++ ys) = goneOf xs ++ goneOf ys := by
+  simp [goneOf, List.filterMap_append]
+
+theorem take_getElem?_drop (l : List (Addr × Bytes)) (n : Nat) :
+    l.take n ++ (match l[n]? with | some x => [x] | none => []) ++ l.drop (n + 1) = l := by
+  induction l generalizing n with
+  | nil => simp
+  | cons x xs ih =>
+    cases n with
+    | zero => simp
+    | succ m => simpa using ih m
+
+/-- the READY branch conserves packets, as lists: tunnelled ++ lost ++ still queued = new packet :: backlog -/
+theorem sendOver_conserve (s : State) (c : Circuit) (a : Addr) (p : Bytes) :
+    goneOf (sendOver s c a p).2 ++ (sendOver s c a p).1.queue = (a, p) :: s.queue := by
+  have key := take_getElem?_drop ((a, p) :: s.queue) (okCalls s.comm.failAfter ((a, p) :: s.queue).length)
+  simp only [sendOver, goneOf_append, goneOf_datas]
+  generalize ((a, p) :: s.queue) = all at key ⊢
+  generalize okCalls s.comm.failAfter all.length = n at key ⊢
+  cases hn : all[n]? with
+  | none => simp [hn, goneOf] at key ⊢; exact key
+  | some x => simp [hn, goneOf] at key ⊢; exact key
+
+/-- without fault injection the READY branch sends everything and empties the queue -/
+theorem sendOver_nofail (s : State) (c : Circuit) (a : Addr) (p : Bytes) (h : s.comm.failAfter = none) :
+    sendOver s c a p = ({ s with queue := [] }, dataEv c (a, p) :: s.queue.map (dataEv c)) := by
+  have hc : ({ s.comm with failAfter := none } : Community) = s.comm := by
+    cases hcm : s.comm; simp_all
+  simp [sendOver, okCalls, nextFail, h, hc]
 
 /-- ops other than `send` and `notify` are silent, and only `send` touches the queue -/
 theorem step_events_nonsend (s : State) (o : Op) (hs : ∀ a p, o ≠ .send a p) (hn : ∀ b, o ≠ .notify b) :
@@ -136,30 +227,17 @@ theorem step_queue_nonsend (s : State) (o : Op) (hs : ∀ a p, o ≠ .send a p) 
     (step s o).1.queue = s.queue ∧ (step s o).1.cap = s.cap := by
   cases o <;> simp [step] at * <;> (try split) <;> simp
 
-/-- every case of `send` at once: cap is never changed -/
+/-- every case of `send` at once: cap and settings are never changed -/
 theorem send_cap (s : State) (a : Addr) (p : Bytes) : (send s a p).1.cap = s.cap := by
-  unfold send
-  split
-  · rfl
-  · split
-    · rfl
-    · split
-      · rfl
-      · split <;> rfl
+  rcases send_cases s a p with ⟨_, e⟩ | ⟨_, _, e⟩ | ⟨_, _, c, _, e⟩ | ⟨_, _, _, _, e⟩ | ⟨_, _, _, _, e⟩ <;> rw [e]
+  exact (sendOver_fields s c a p).1
 
 theorem step_cap (s : State) (o : Op) : (step s o).1.cap = s.cap := by
   cases o <;> simp [step, send_cap] <;> (try split) <;> simp
 
-/-- `set_anonymity`-like ops are the only ones that change `settings` -/
 theorem send_settings (s : State) (a : Addr) (p : Bytes) : (send s a p).1.settings = s.settings := by
-  unfold send
-  split
-  · rfl
-  · split
-    · rfl
-    · split
-      · rfl
-      · split <;> rfl
+  rcases send_cases s a p with ⟨_, e⟩ | ⟨_, _, e⟩ | ⟨_, _, c, _, e⟩ | ⟨_, _, _, _, e⟩ | ⟨_, _, _, _, e⟩ <;> rw [e]
+  exact (sendOver_fields s c a p).2.1
 
 /-! ### what reaches the raw socket, as a function of the history alone -/
 
@@ -171,6 +249,7 @@ def rawOf (evs : List Event) : List (Addr × Bytes) :=
 def settingsStep (d : List (Bytes × Bool)) : Op → List (Bytes × Bool)
   | .setAnonymity k v => dictSet d k v
   | .overlay cid true => dictSet d (overlayPrefix cid) true
+  | .attachCommunity pfx => dictSet d pfx false
   | _ => d
 
 /-- what one op hands to the raw socket, given only the settings -/
@@ -203,16 +282,21 @@ theorem rawOf_datas (c : Circuit) (l : List (Addr × Bytes)) : rawOf (l.map (dat
   | nil => rfl
   | cons y ys ih => simp [rawOf, dataEv]
 
+theorem rawOf_sendOver (s : State) (c : Circuit) (a : Addr) (p : Bytes) : rawOf (sendOver s c a p).2 = [] := by
+  have h := rawOf_datas c (((a, p) :: s.queue).take (okCalls s.comm.failAfter ((a, p) :: s.queue).length))
+  simp only [rawOf] at h
+  simp only [sendOver, rawOf, List.filterMap_append, h, List.nil_append]
+  split <;> simp
+
 theorem step_rawOf (s : State) (o : Op) : rawOf (step s o).2 = plainOf s.settings o := by
   cases o with
   | send a p =>
     simp only [step, plainOf]
-    rcases send_cases s a p with ⟨h, e⟩ | ⟨h, _, e⟩ | ⟨h, _, c, _, _, e⟩ | ⟨h, _, c, _, _, e⟩ | ⟨h, _, _, e⟩
+    rcases send_cases s a p with ⟨h, e⟩ | ⟨h, _, e⟩ | ⟨h, _, c, _, e⟩ | ⟨h, _, _, _, e⟩ | ⟨h, _, _, _, e⟩
     all_goals (simp only [State.anonymized] at h; rw [e, h])
     · simp [rawOf]
     · simp [rawOf]
-    · have := rawOf_datas c s.queue
-      simp [rawOf, dataEv] at this ⊢
+    · simpa using rawOf_sendOver s c a p
     · simpa using rawOf_drops _ true
     · have := rawOf_drops (dequeAppend s.cap s.queue (a, p)).2 true
       simp [rawOf] at this ⊢
@@ -225,9 +309,14 @@ theorem step_rawOf (s : State) (o : Op) : rawOf (step s o).2 = plainOf s.setting
   | _ => simp [step, plainOf, rawOf]
 
 theorem dictGet_settingsStep_true (d : List (Bytes × Bool)) (k : Bytes) (o : Op)
-    (h : dictGet d k = some true) (hno : o ≠ .setAnonymity k false) :
+    (h : dictGet d k = some true) (hno : o ≠ .setAnonymity k false) (hno2 : o ≠ .attachCommunity k) :
     dictGet (settingsStep d o) k = some true := by
   cases o with
+  | attachCommunity pfx =>
+    simp only [settingsStep, dictGet_dictSet]
+    by_cases hk : pfx = k
+    · subst hk; exact absurd rfl hno2
+    · simp [hk, h]
   | setAnonymity k' v =>
     simp only [settingsStep, dictGet_dictSet]
     by_cases hk : k' = k
@@ -242,13 +331,14 @@ theorem dictGet_settingsStep_true (d : List (Bytes × Bool)) (k : Bytes) (o : Op
   | _ => simpa [settingsStep] using h
 
 theorem runState_keeps_anonymized (ops : List Op) (s : State) (k : Bytes)
-    (h : dictGet s.settings k = some true) (hno : ∀ o ∈ ops, o ≠ .setAnonymity k false) :
+    (h : dictGet s.settings k = some true)
+    (hno : ∀ o ∈ ops, o ≠ .setAnonymity k false ∧ o ≠ .attachCommunity k) :
     dictGet (runState s ops).settings k = some true := by
   induction ops generalizing s with
   | nil => exact h
   | cons o os ih =>
     apply ih
-    · rw [step_settings]; exact dictGet_settingsStep_true _ _ _ h (hno o (by simp))
+    · rw [step_settings]; exact dictGet_settingsStep_true _ _ _ h (hno o (by simp)).1 (hno o (by simp)).2
     · intro o' ho'; exact hno o' (by simp [ho'])
 
 /-! ### circuits whose removal was requested -/
@@ -295,10 +385,12 @@ theorem closedFor_step (cid : Nat) (s : State) (o : Op) (h : ClosedFor cid s) : 
   cases o with
   | send a p =>
     simp only [step]
-    rcases send_cases s a p with ⟨_, e⟩ | ⟨_, _, e⟩ | ⟨_, _, c, _, _, e⟩ | ⟨_, _, c, _, _, e⟩ | ⟨_, _, _, e⟩
+    rcases send_cases s a p with ⟨_, e⟩ | ⟨_, _, e⟩ | ⟨_, _, c, _, e⟩ | ⟨_, _, _, _, e⟩ | ⟨_, _, _, _, e⟩
     · rw [e]; exact ⟨hc, hn⟩
     · rw [e]; exact ⟨hc, hn⟩
-    · rw [e]; exact ⟨hc, hn⟩
+    · rw [e]
+      obtain ⟨_, _, _, _, h5, h6⟩ := sendOver_fields s c a p
+      exact ⟨by rw [h5]; exact hc, by rw [h6]; exact hn⟩
     · rw [e]; exact ⟨hc, hn⟩
     · rw [e]; exact closedFor_create cid s.comm _ _ ⟨hc, hn⟩
   | newCircuit g t =>
